@@ -113,6 +113,7 @@ func (w *webSocketClient) handleErr(err error) {
 }
 
 func (w *webSocketClient) listenWebSocket() {
+	defer verifYield("listen.exit")
 	for {
 		if w.isClosing {
 			return
